@@ -122,7 +122,7 @@ class Contract(object):
     def __init__(self, target, prop, args=None, requires=None, ensures=None, raises=None,
                  modifies=(), loops=None, params=None, assumed=False, inline=False,
                  decreases=None, ghost=None, result_type=None, note="", lemmas=(), reads_heap=True,
-                 block=None, pure_result=None, uses=(), returns=None, solver_hints=None):
+                 block=None, pure_result=None, uses=(), returns=None, solver_hints=None, raises_not=None):
         self.target = target
         self.prop = prop
         self.args = args or {}
@@ -141,6 +141,9 @@ class Contract(object):
         self.ghost = ghost
         self.uses = tuple(uses)        # proved background lemmas instantiated at function entry
         self.returns = returns         # spec term the result equals (used directly at call sites)
+        # exception class -> ground statement about a normal return that *implies* "not raises[exc]"
+        # (the implication itself is a lemma of the contracts module); used instead of the negated condition
+        self.raises_not = raises_not or {}
         self.solver_hints = solver_hints or {}   # obligation-name fragment -> {"cli_s": seconds, "only": "cvc5"}
 
 
@@ -365,7 +368,12 @@ class Exec(object):
             res = st.yielded
         S = SpecCtx(self, st, self.entry_heap, args)
         for exc, cond in c.raises.items():
-            self.oblige(st, "raises.%s.complete" % exc, vnot(cond(S, *args.values())), "raises")
+            pc_before = len(st.pc)
+            if exc in c.raises_not:
+                self.oblige(st, "raises.%s.complete" % exc, c.raises_not[exc](S, *(list(args.values()) + [res])), "raises")
+            else:
+                self.oblige(st, "raises.%s.complete" % exc, vnot(cond(S, *args.values())), "raises")
+            del st.pc[pc_before:]
         # every postcondition clause is proved from the path condition alone (not from the other clauses)
         pc0 = list(st.pc)
         if c.returns is not None:
